@@ -1,22 +1,26 @@
 #!/bin/sh
 # usage: try_seed.sh <patch.diff> [property ids...]
-# Applies a seeded breaking change to /repo, runs the quick checks of the named (default: all claimed)
-# properties (6 at a time), prints their VIOLATION lines, and restores /repo.
+# Applies a seeded breaking change to a scratch clone of /repo's HEAD (never to /repo itself: a
+# snapshot of /repo taken while a seed was applied there once ended up committed, see DESIGN §7
+# "D17"), runs the quick checks of the named (default: all claimed) properties against the clone
+# (6 at a time), prints their VIOLATION lines, and removes the clone.
 . /verif/scripts/env.sh
 GCV=${GCV:-/verif/bin/gcv}
 patch=$(readlink -f "$1"); shift
 props="$*"
 [ -z "$props" ] && props=$(python3 -c "import json;print(' '.join(c['property_id'] for c in json.load(open('/verif/MANIFEST.json'))['checks']))")
-cd /repo || exit 2
-if [ -n "$(git status --porcelain)" ]; then echo "REFUSING: /repo has uncommitted changes (commit the contract files first)"; exit 2; fi
-if ! git apply --check "$patch" 2>/dev/null; then echo "PATCH DOES NOT APPLY: $patch"; exit 2; fi
-git apply "$patch"
-tmp=$(mktemp -d)
+if [ -n "$(git -C /repo status --porcelain)" ]; then echo "REFUSING: /repo has uncommitted changes (commit the contract files first)"; exit 2; fi
+tmp=$(mktemp -d "${TMPDIR:-/tmp}/try_seed.XXXXXX")
+trap 'rm -rf "$tmp"' EXIT INT TERM HUP
+git clone -q /repo "$tmp/repo" || exit 2
+if ! git -C "$tmp/repo" apply --check "$patch" 2>/dev/null; then echo "PATCH DOES NOT APPLY: $patch"; exit 2; fi
+git -C "$tmp/repo" apply "$patch"
+export GCV_REPO=$tmp/repo
 export GCV_EVIDENCE_DIR=$tmp/evidence
+export GCV_REPLAY_OUT=$tmp/replays
+mkdir -p $tmp/t; export TMPDIR=$tmp/t   # solver and replay scratch of the engine goes with the clone
 echo $props | tr ' ' '\n' | xargs -P 6 -I{} sh -c "$GCV check --property {} > $tmp/{}.out 2>&1"
 for p in $props; do
   grep -E "^VIOLATION|ERROR" $tmp/$p.out | cut -c1-260 | sed "s/^/[$p] /"
   tail -1 $tmp/$p.out | sed "s/^/[$p] /"
 done
-rm -rf $tmp
-git -C /repo checkout -- .
